@@ -409,10 +409,14 @@ def _read_roots(v):
 
 
 def _read_paths(v):
-    """Attribute paths read by v, as text (self.U, stage._method, ...)."""
+    """Maximal attribute paths read by v, as text (self.U, stage._method, ...): prefixes of a longer path are not listed."""
     out = set()
+    inner = set()
     for n in ast.walk(v):
-        if isinstance(n, (ast.Attribute, ast.Name)):
+        if isinstance(n, ast.Attribute):
+            inner.add(id(n.value))
+    for n in ast.walk(v):
+        if isinstance(n, (ast.Attribute, ast.Name)) and id(n) not in inner:
             try:
                 out.add(ast.unparse(n))
             except Exception:
@@ -446,30 +450,57 @@ def _stmt_lists(node):
                 yield h.body
 
 
-def _mutates(st, paths, roots):
-    """May the statement change what one of the paths denotes?  (assignment / augmented assignment / del of a prefix, or a
-    mutating method call on a prefix; conservative on everything it does not understand)"""
+def _mutated_paths(st):
+    """(rebound paths, containers/objects changed in place) by a statement: `a.b = v` rebinds a.b; `a.b[i] = v`, `a.b.append(x)`
+    change the object a.b; loop targets and deletions count as rebinding."""
     MUT = ("append", "extend", "insert", "pop", "remove", "clear", "update", "setdefault", "sort", "reverse", "popitem", "move_to_end", "add", "discard")
+    rebound, changed = set(), set()
+
+    def target(t):
+        if isinstance(t, (ast.Tuple, ast.List)):
+            for e in t.elts:
+                target(e)
+        elif isinstance(t, ast.Starred):
+            target(t.value)
+        elif isinstance(t, (ast.Name, ast.Attribute)):
+            rebound.add(ast.unparse(t))
+        elif isinstance(t, ast.Subscript):
+            base = t.value
+            while isinstance(base, ast.Subscript):
+                base = base.value
+            changed.add(ast.unparse(base))
     for n in ast.walk(st):
-        tg = []
         if isinstance(n, ast.Assign):
-            tg = n.targets
+            for t in n.targets:
+                target(t)
         elif isinstance(n, (ast.AugAssign, ast.AnnAssign)):
-            tg = [n.target]
+            target(n.target)
         elif isinstance(n, ast.Delete):
-            tg = n.targets
-        elif isinstance(n, (ast.For, ast.AsyncFor)):
-            tg = [n.target]
-        for t in tg:
-            for x in ast.walk(t):
-                if isinstance(x, (ast.Name, ast.Attribute)):
-                    txt = ast.unparse(x)
-                    if any(p_ == txt or p_.startswith(txt + ".") or p_.startswith(txt + "[") or txt.startswith(p_ + ".") for p_ in paths):
-                        return True
-        if isinstance(n, ast.Call) and isinstance(n.func, ast.Attribute) and n.func.attr in MUT:
-            txt = ast.unparse(n.func.value)
-            if any(p_ == txt or p_.startswith(txt + ".") or txt.startswith(p_ + ".") or txt.startswith(p_ + "[") for p_ in paths):
+            for t in n.targets:
+                target(t)
+        elif isinstance(n, (ast.For, ast.AsyncFor, ast.comprehension)):
+            target(n.target)
+        elif isinstance(n, (ast.With, ast.AsyncWith)):
+            for it in n.items:
+                if it.optional_vars is not None:
+                    target(it.optional_vars)
+        elif isinstance(n, ast.Call) and isinstance(n.func, ast.Attribute) and n.func.attr in MUT:
+            changed.add(ast.unparse(n.func.value))
+    return rebound, changed
+
+
+def _mutates(st, paths, roots, alias=False):
+    """May the statement change what one of the paths denotes?  For an alias of an access path only a rebinding of the path (or of
+    a prefix of it) matters; for any other pure expression a change in place of an object the path reaches into matters too."""
+    rebound, changed = _mutated_paths(st)
+    for p_ in paths:
+        for m in rebound:
+            if p_ == m or p_.startswith(m + ".") or p_.startswith(m + "["):
                 return True
+        if not alias:
+            for m in changed:
+                if p_ == m or p_.startswith(m + ".") or p_.startswith(m + "[") or m.startswith(p_ + ".") or m.startswith(p_ + "["):
+                    return True
     return False
 
 
@@ -543,10 +574,11 @@ def inline_new_locals(prog):
                                 continue
                     last = max(j for j, s_ in enumerate(after) if any(isinstance(n, ast.Name) and n.id == name for n in ast.walk(s_)))
                     paths = _read_paths(st.value) - {name}
-                    if not adjacent_temp and any(_mutates(s_, paths, None) for s_ in after[:last + 1]):
+                    simple = isinstance(st.value, (ast.Name, ast.Attribute, ast.Constant)) or (isinstance(st.value, ast.Subscript) and isinstance(st.value.slice, ast.Constant))
+                    is_alias = isinstance(st.value, (ast.Name, ast.Attribute))
+                    if not adjacent_temp and any(_mutates(s_, paths, None, alias=is_alias) for s_ in after[:last + 1]):
                         continue
                     # a big expression used many times is left alone (keeps the trees readable); aliases and single uses always go
-                    simple = isinstance(st.value, (ast.Name, ast.Attribute, ast.Constant)) or (isinstance(st.value, ast.Subscript) and isinstance(st.value.slice, ast.Constant))
                     if not simple and uses_total > 3:
                         continue
                     sub = _Subst(name, st.value)
@@ -683,6 +715,40 @@ def splice_index_lists(prog):
                 if not changed:
                     break
     return done
+
+
+# ---------------------------------------------------------------------------------------- P21 (guard clauses re-nested)
+def _always_exits(stmts):
+    if not stmts:
+        return False
+    last = stmts[-1]
+    if isinstance(last, (ast.Return, ast.Raise, ast.Continue, ast.Break)):
+        return True
+    if isinstance(last, ast.If) and last.orelse:
+        return _always_exits(last.body) and _always_exits(last.orelse)
+    return False
+
+
+def renest_guard_clauses(tree):
+    """P21: `if c: ..; <exit>` followed by more statements of the same list -> `if c: ..; <exit>  else: <those statements>`.
+    (<exit> = return / raise / continue / break at the end of every path of the branch.)  Together with P20 an early-exit guard and
+    the nested if/else it abbreviates get one form."""
+    count = 0
+    for n in ast.walk(tree):
+        for fld in ("body", "orelse", "finalbody"):
+            lst = getattr(n, fld, None)
+            if not (isinstance(lst, list) and lst and isinstance(lst[0], ast.stmt)):
+                continue
+            i = 0
+            while i < len(lst) - 1:
+                st = lst[i]
+                if isinstance(st, ast.If) and not st.orelse and _always_exits(st.body):
+                    st.orelse = lst[i + 1:]
+                    del lst[i + 1:]
+                    count += 1
+                    break
+                i += 1
+    return count
 
 
 # ---------------------------------------------------------------------------------------- P1 / P2 / P3
@@ -1003,6 +1069,8 @@ def canonicalise(prog):
     total = 0
     for m in prog.modules.values():
         c = _Canon()
+        if os.environ.get("RKVERIF_P21", "0") == "1":   # experimental: re-nesting every guard clause changes too many baseline shapes; the rules read paths instead (ceval.run_path)
+            c.count += renest_guard_clauses(m.tree)
         c.visit(m.tree)
         c.count += _default_then_override(m.tree)
         c.count += _name_opti_handle(m.tree)
